@@ -2,10 +2,12 @@ package wmptsim
 
 import (
 	"bytes"
+	"fmt"
 
 	"github.com/0chain/common/core/util/wmpt"
 
 	"verif/harness/refwmpt"
+	"verif/harness/sim"
 )
 
 // saveRoot takes a checkpoint (only on a clean trie, as the package's users do).
@@ -124,4 +126,94 @@ func (w *world) checkReopenAs(rec *commitRec, oracle, where string) {
 	if w.v != nil && save == nil {
 		w.v.Oracle = oracle
 	}
+}
+
+// steer: checkpoint / one commit of n new keys / rollback, repeated with n (and the choice of the last keys) adjusted
+// by feedback until the commit has written exactly op.N new storage keys.  Batch boundaries inside the code under
+// test (flush every so many nodes) are exact counts a random commit size practically never lands on; the number of
+// keys a commit adds to storage is a public observation, so the harness can walk up to a chosen count.  Every
+// rollback on the way is an ordinary, judged rollback.
+func (w *world) steer(op WOp) {
+	if !w.has("C13") || w.kv == nil || !w.clean || op.N <= 0 {
+		return
+	}
+	r := sim.NewRand(uint64(op.B)*2654435761 + 17)
+	base := len(w.keys)
+	newKey := func() []byte {
+		k := make([]byte, 32)
+		for i := range k {
+			k[i] = byte(r.U64())
+		}
+		return k
+	}
+	n := op.N * 10 / 24
+	if n < 1 {
+		n = 1
+	}
+	nv := 0
+	for iter := 0; iter < 40 && w.v == nil; iter++ {
+		for len(w.keys) < base+n {
+			w.keys = append(w.keys, newKey())
+		}
+		w.saveRoot()
+		if w.cp == nil || w.v != nil {
+			return
+		}
+		for j := 0; j < n && w.v == nil; j++ {
+			nv++
+			w.update(base+j, []byte(fmt.Sprintf("%cs%d", byte('a'+nv%20), nv)), "update")
+		}
+		if w.v != nil {
+			return
+		}
+		w.commit(WOp{K: "commit", N: op.I, Sync: true})
+		if w.v != nil || w.keysAfterB == nil {
+			return
+		}
+		created := 0
+		for k := range w.keysAfterB {
+			if !w.keysBeforeB[k] {
+				created++
+			}
+		}
+		w.stats.Inc("probe.steered-commit")
+		if created == op.N {
+			w.stats.Inc("probe.steered-commit-hit-exact-count")
+		}
+		w.rollback(WOp{K: "rollback", N: op.A})
+		if w.v != nil || created == op.N {
+			return
+		}
+		switch d := op.N - created; {
+		case d > 3:
+			n += d / 3
+		case d < -3:
+			n -= (-d) / 3
+			if n < 1 {
+				n = 1
+			}
+		default:
+			// within one key of the target: what a key adds depends on where it lands; try other last keys
+			if d > 0 {
+				n++
+			}
+			for len(w.keys) < base+n {
+				w.keys = append(w.keys, newKey())
+			}
+			for j := 0; j < 2 && n-1-j >= 0; j++ {
+				w.keys[base+n-1-j] = newKey()
+			}
+			if d < 0 && r.Chance(1, 2) && n > 1 {
+				n--
+			}
+		}
+		w.keys = w.keys[:base+minInt(n, len(w.keys)-base)]
+	}
+}
+
+func minInt(a, b int) int {
+	if a < b {
+		return a
+	}
+	return b
 }
